@@ -224,6 +224,9 @@ func VerifC16Sync() {
 	// ---- the leader: stream[i] is the byte at offset lbase+i of history r1 ----
 	n := verifRange("nleader", 1, verifParam("NLEADER", 3))
 	stream := verifBytes("ldr", n+2) // two more bytes exist in the history than the leader has cached
+	pre := verifBytes("pre", 3)       // the history's bytes at lbase-3 .. lbase-1 (older than anything the leader caches)
+	hbase := lbase - int64(len(pre))
+	hist := append(append([]byte{}, pre...), stream...)
 	leaderState := verifChoose("leaderState", 3)
 	lc := verifC05Chan(L, 0)
 	// optionally the leader is still under the previous id r0 when the follower shakes hands and
@@ -275,7 +278,7 @@ func VerifC16Sync() {
 
 	// ---- the follower ----
 	fc := verifC05Chan(L, 0)
-	fstate := verifChoose("followerState", 5)
+	fstate := verifChoose("followerState", 6)
 	var fbytes []byte
 	fbase := lbase
 	frun := lid0
@@ -295,11 +298,19 @@ func VerifC16Sync() {
 		frun = otherId
 		fbase = lbase + int64(verifRange("fshift", -1, 1))
 		fbytes = verifBytes("other", verifRange("fotherlen", 1, n+1))
-	default: // another replication id whose right edge is exactly the leader's newest offset
+	case 4: // another replication id whose right edge is exactly the leader's newest offset
 		frun = otherId
 		k := verifRange("fotherlen", 1, 2)
 		fbase = leaderRight - int64(k)
 		fbytes = verifBytes("other", k)
+	default: // same history, but behind everything the leader still has as a log: k bytes that end g bytes
+		// before the leader's snapshot offset (the leader can only answer with its snapshot)
+		verifAssume(leaderState != 0)
+		k := verifRange("fbehind", 1, 2)
+		g := verifRange("fgap", 0, 3-k)
+		fbase = lbase - int64(k+g)
+		fbytes = pre[len(pre)-k-g : len(pre)-g]
+		verifCover(g > 0, "c16.follower-behind-snapshot")
 	}
 	if frun != "" {
 		fc.SetRunId(frun)
@@ -361,7 +372,7 @@ func VerifC16Sync() {
 	if frunNow == "r1" {
 		l, r := fc.GetOffsetRange("r1")
 		if l != -1 {
-			verifAssert(l >= lbase && r <= lbase+int64(len(stream)), "C16.follower-range-outside-history")
+			verifAssert(l >= hbase && r <= lbase+int64(len(stream)), "C16.follower-range-outside-history")
 			for x := l; x <= r; x++ {
 				verifAssert(fc.IsValidOffset(Offset{RunId: "r1", Offset: x}), "C16.follower-range-not-contiguous")
 				got, ok, aof := verifC16ReadAll(fc, "r1", x)
@@ -371,11 +382,11 @@ func VerifC16Sync() {
 				}
 				verifAssert(int64(len(got)) == r-x, "C16.follower-range-not-contiguous")
 				for i := 0; i < len(got); i++ {
-					o := int(x-lbase) + i
-					verifAssert(o >= 0 && o < len(stream) && got[i] == stream[o], "C16.follower-bytes-differ-from-leader")
+					o := int(x-hbase) + i
+					verifAssert(o >= 0 && o < len(hist) && got[i] == hist[o], "C16.follower-bytes-differ-from-leader")
 				}
 			}
-			verifCover(r > fRightBefore || fstate == 0 || fstate >= 3, "c16.received-data")
+			verifCover(r > fRightBefore || fstate == 0 || fstate == 3 || fstate == 4, "c16.received-data")
 		}
 		if rl, rs := fc.GetRdb("r1"); rl != -1 {
 			verifAssert(snap != nil && rl == lbase && rs == int64(len(snap)), "C16.follower-offers-unknown-snapshot")
